@@ -93,7 +93,7 @@ def make_complex(rng, nA=None, nB=None, chains=('A', 'B'), hydrogens=None, numbe
     nB = nB if nB is not None else rng.randint(3, 12)
     hydrogens = rng.random() < 0.4 if hydrogens is None else hydrogens
     gap = gap if gap is not None else rng.choice([3.5, 4.5, 6.0, 8.0, 11.0])
-    numbering = numbering or rng.choice(['plain', 'negative', 'gappy', 'offset'])
+    numbering = numbering or rng.choice(['plain', 'negative', 'gappy', 'offset', 'wide'])
     residues = []
     for ci, (chain, n) in enumerate(zip(chains, (nA, nB))):
         if numbering == 'plain':
@@ -102,6 +102,10 @@ def make_complex(rng, nA=None, nB=None, chains=('A', 'B'), hydrogens=None, numbe
             nums = list(range(-(n // 2) - 1, -(n // 2) - 1 + n))
         elif numbering == 'offset':
             st = rng.randint(100, 900)
+            nums = list(range(st, st + n))
+        elif numbering == 'wide':
+            # all four residue-number columns in use: 4-digit numbers, or a minus sign and three digits
+            st = rng.choice([rng.randint(995, 9999 - n), -999, rng.randint(-999, -100)])
             nums = list(range(st, st + n))
         else:
             nums, cur = [], rng.randint(-5, 20)
